@@ -6,6 +6,8 @@ Property theorems about `Molgri.Merge` (model of `merge_sublists`, `merge_matrix
 delete operations (any length), every join list (repeats, overlaps, absent cells).
 -/
 import Molgri.Lemmas.Merge
+import Molgri.Lemmas.MergeGood
+import Molgri.Lemmas.MergeUnique
 
 namespace Molgri.C13
 open Molgri.Merge
@@ -297,6 +299,158 @@ theorem merge_groups_sorted (il G : Groups) : ∀ g ∈ mergeIdx il G, g.Pairwis
   unfold mergeIdx at hg
   obtain ⟨a, _, rfl⟩ := List.mem_map.mp hg
   exact sorted_sortAsc _
+
+/-! ### the index list is always a list of disjoint sorted groups ordered by smallest member -/
+
+theorem good_step {s s' : State} (op : Op) (hl : (idxOf s).length = s.A.length) (hg : Good (idxOf s))
+    (h : step s op = .ok s') : Good (idxOf s') := by
+  cases op with
+  | merge J =>
+    unfold step at h
+    simp only [bind, Except.bind] at h
+    split at h
+    · cases h
+    · rename_i res hres
+      obtain ⟨A', il'⟩ := res
+      cases h
+      obtain ⟨G, hG, hn, rfl, rfl⟩ := merge_rowGroups hres hl
+      exact good_mergeIdx (idxOf s) G hg hG (fun g hgG x hx => by rw [hl]; exact hn g hgG x hx)
+  | delete R =>
+    unfold step at h
+    simp only [pure, Except.pure] at h
+    cases h
+    simp only [idxOf, deleteCells, Option.getD_some]
+    have := good_select (idxOf s) (match s.idx with | none => R | some il => rowsOf il R) hg
+    rw [hl] at this
+    exact this
+
+/-- **For every operation sequence the index list consists of non-empty, strictly ascending, pairwise disjoint
+groups ordered by their smallest member.** -/
+theorem good_run (M : Nat → Nat → Int) (ops : List Op) {s s' : State} (hinv : Inv M s) (hg : Good (idxOf s))
+    (h : run s ops = .ok s') : Good (idxOf s') := by
+  induction ops generalizing s with
+  | nil => simp only [run, pure, Except.pure] at h; cases h; exact hg
+  | cons op ops ih =>
+    simp only [run, bind, Except.bind] at h
+    split at h
+    · cases h
+    · rename_i s1 hs1
+      exact ih (inv_step M op hinv hs1) (good_step op hinv.len hg hs1) h
+
+/-- … in particular for every history that starts from a square matrix with no index list. -/
+theorem good_all_histories (A₀ : Mat) (hsq : Square A₀) (ops : List Op) {s' : State}
+    (h : run ⟨A₀, none⟩ ops = .ok s') : Good (idxOf s') :=
+  good_run _ ops (inv_init A₀ hsq) (by simpa [idxOf] using good_singletons A₀.length) h
+
+/-! ### what a merge does to the groups; order, redundancy, one-shot versus step-wise -/
+
+/-- **A merge unites exactly the groups containing the listed cells** (transitively; cells no longer present are
+ignored): afterwards `c` and `d` share a group iff `c` is present and `c ~ d` in the equivalence generated by
+"same group before" and "both present and named in one join list". -/
+theorem merge_groups_spec {A : Mat} {J : Groups} {idx : Option Groups} {A' : Mat} {il' : Groups}
+    (h : mergeCells A J idx = .ok (A', il')) (hlen : (idx.getD (singletons A.length)).length = A.length)
+    (hgood : Good (idx.getD (singletons A.length))) (c d : Nat) :
+    SameGroup il' c d ↔
+      (Present (idx.getD (singletons A.length)) c ∧ Joined (idx.getD (singletons A.length)) J c d) :=
+  mergeCells_spec h hlen hgood c d
+
+theorem good_of_mergeCells {A : Mat} {J : Groups} {idx : Option Groups} {A' : Mat} {il' : Groups}
+    (h : mergeCells A J idx = .ok (A', il')) (hlen : (idx.getD (singletons A.length)).length = A.length)
+    (hgood : Good (idx.getD (singletons A.length))) : Good il' := by
+  obtain ⟨G, hG, hn, rfl, rfl⟩ := merge_rowGroups h hlen
+  exact good_mergeIdx _ G hgood hG (fun g hg x hx => by rw [hlen]; exact hn g hg x hx)
+
+/-- **The result depends only on the equivalence the join lists generate**: any two families of join lists that
+generate the same relation give the same index list. -/
+theorem merge_congr {A : Mat} {J J' : Groups} {idx : Option Groups} {A₁ A₂ : Mat} {il₁ il₂ : Groups}
+    (h₁ : mergeCells A J idx = .ok (A₁, il₁)) (h₂ : mergeCells A J' idx = .ok (A₂, il₂))
+    (hlen : (idx.getD (singletons A.length)).length = A.length) (hgood : Good (idx.getD (singletons A.length)))
+    (hJ : ∀ c d, Joined (idx.getD (singletons A.length)) J c d ↔ Joined (idx.getD (singletons A.length)) J' c d) :
+    il₁ = il₂ := by
+  apply good_ext (good_of_mergeCells h₁ hlen hgood) (good_of_mergeCells h₂ hlen hgood)
+  intro c d
+  rw [mergeCells_spec h₁ hlen hgood, mergeCells_spec h₂ hlen hgood, hJ]
+
+theorem eqvGen_of_le {α : Type} {r p : α → α → Prop} (h : ∀ a b, r a b → Relation.EqvGen p a b) {a b : α}
+    (hab : Relation.EqvGen r a b) : Relation.EqvGen p a b := by
+  induction hab with
+  | rel a b hr => exact h a b hr
+  | refl a => exact Relation.EqvGen.refl a
+  | symm a b _ ih => exact Relation.EqvGen.symm _ _ ih
+  | trans a b c _ _ ih1 ih2 => exact Relation.EqvGen.trans _ _ _ ih1 ih2
+
+theorem joined_mono {il J J' : Groups} (h : ∀ L ∈ J, ∃ L' ∈ J', ∀ x ∈ L, x ∈ L') {c d : Nat}
+    (hj : Joined il J c d) : Joined il J' c d := by
+  refine eqvGen_of_le ?_ hj
+  rintro a b (hs | ⟨hpa, hpb, L, hL, haL, hbL⟩)
+  · exact Relation.EqvGen.rel _ _ (Or.inl hs)
+  · obtain ⟨L', hL', hsub⟩ := h L hL
+    exact Relation.EqvGen.rel _ _ (Or.inr ⟨hpa, hpb, L', hL', hsub a haL, hsub b hbL⟩)
+
+/-- **Order and redundancy of the join lists do not matter**: permuting the lists, permuting or repeating members,
+repeating or splitting off sub-lists that are contained in other lists — if every list of one family is contained
+in a list of the other and vice versa, the index lists agree. -/
+theorem merge_order_redundancy {A : Mat} {J J' : Groups} {idx : Option Groups} {A₁ A₂ : Mat} {il₁ il₂ : Groups}
+    (h₁ : mergeCells A J idx = .ok (A₁, il₁)) (h₂ : mergeCells A J' idx = .ok (A₂, il₂))
+    (hlen : (idx.getD (singletons A.length)).length = A.length) (hgood : Good (idx.getD (singletons A.length)))
+    (hsub : ∀ L ∈ J, ∃ L' ∈ J', ∀ x ∈ L, x ∈ L') (hsub' : ∀ L' ∈ J', ∃ L ∈ J, ∀ x ∈ L', x ∈ L) :
+    il₁ = il₂ :=
+  merge_congr h₁ h₂ hlen hgood (fun _ _ => ⟨joined_mono hsub, joined_mono hsub'⟩)
+
+/-- **One-shot merging equals step-wise merging**: merging `J₁` and then `J₂` (threading the index list) gives the
+same index list as merging `J₁ ++ J₂` at once. -/
+theorem merge_stepwise_eq_oneshot {A : Mat} {J₁ J₂ : Groups} {idx : Option Groups} {A₁ A₂ A₃ : Mat}
+    {il₁ il₂ il₃ : Groups}
+    (h₁ : mergeCells A J₁ idx = .ok (A₁, il₁)) (h₂ : mergeCells A₁ J₂ (some il₁) = .ok (A₂, il₂))
+    (h₃ : mergeCells A (J₁ ++ J₂) idx = .ok (A₃, il₃))
+    (hlen : (idx.getD (singletons A.length)).length = A.length) (hgood : Good (idx.getD (singletons A.length))) :
+    il₂ = il₃ := by
+  set il := idx.getD (singletons A.length) with hil
+  have hlen₁ : il₁.length = A₁.length := mergeCells_dim h₁
+  have hgood₁ : Good il₁ := good_of_mergeCells h₁ hlen hgood
+  have spec₁ := mergeCells_spec h₁ hlen hgood
+  have spec₂ := mergeCells_spec h₂ (by simpa using hlen₁) (by simpa using hgood₁)
+  have spec₃ := mergeCells_spec h₃ hlen hgood
+  simp only [Option.getD_some] at spec₂
+  have hgood₂ : Good il₂ := good_of_mergeCells h₂ (by simpa using hlen₁) (by simpa using hgood₁)
+  have hgood₃ : Good il₃ := good_of_mergeCells h₃ hlen hgood
+  have pres : ∀ c, Present il₁ c ↔ Present il c := by
+    intro c
+    constructor
+    · rintro ⟨g, hg, hc⟩
+      exact ((spec₁ c c).mp ⟨g, hg, hc, hc⟩).1
+    · intro hp
+      obtain ⟨g, hg, hc, _⟩ := (spec₁ c c).mpr ⟨hp, Relation.EqvGen.refl c⟩
+      exact ⟨g, hg, hc⟩
+  have same_of_present : ∀ {a b}, SameGroup il a b → SameGroup il₁ a b := by
+    intro a b hs
+    have hpa : Present il a := by obtain ⟨g, hg, ha, _⟩ := hs; exact ⟨g, hg, ha⟩
+    exact (spec₁ a b).mpr ⟨hpa, Relation.EqvGen.rel _ _ (Or.inl hs)⟩
+  apply good_ext hgood₂ hgood₃
+  intro c d
+  rw [spec₂, spec₃, pres]
+  constructor
+  · rintro ⟨hp, hj⟩
+    refine ⟨hp, eqvGen_of_le ?_ hj⟩
+    rintro a b (hs | ⟨hpa, hpb, L, hL, haL, hbL⟩)
+    · exact joined_mono (fun L hL => ⟨L, List.mem_append_left _ hL, fun _ h => h⟩) ((spec₁ a b).mp hs).2
+    · exact Relation.EqvGen.rel _ _ (Or.inr ⟨(pres a).mp hpa, (pres b).mp hpb, L, List.mem_append_right _ hL, haL, hbL⟩)
+  · rintro ⟨hp, hj⟩
+    refine ⟨hp, eqvGen_of_le ?_ hj⟩
+    rintro a b (hs | ⟨hpa, hpb, L, hL, haL, hbL⟩)
+    · exact Relation.EqvGen.rel _ _ (Or.inl (same_of_present hs))
+    · rcases List.mem_append.mp hL with hL₁ | hL₂
+      · exact Relation.EqvGen.rel _ _ (Or.inl ((spec₁ a b).mpr
+          ⟨hpa, Relation.EqvGen.rel _ _ (Or.inr ⟨hpa, hpb, L, hL₁, haL, hbL⟩)⟩))
+      · exact Relation.EqvGen.rel _ _ (Or.inr ⟨(pres a).mpr hpa, (pres b).mpr hpb, L, hL₂, haL, hbL⟩)
+
+/-- **The matrix is determined by the index list**: two states that lump the same original matrix and carry the
+same index list have the same off-diagonal entries (hence equal index lists from `merge_congr` /
+`merge_stepwise_eq_oneshot` give equal matrices off the diagonal; with `zeroRows_run` or `lumping_merges` the
+diagonal follows). -/
+theorem matrix_determined_off (M : Nat → Nat → Int) {s₁ s₂ : State} (h₁ : Inv M s₁) (h₂ : Inv M s₂)
+    (hidx : idxOf s₁ = idxOf s₂) {r c : Nat} (hrc : r ≠ c) : entry s₁.A r c = entry s₂.A r c := by
+  rw [h₁.off r c hrc, h₂.off r c hrc, hidx]
 
 /-! ### merge-only histories: every entry (diagonal included) is a block sum -/
 
